@@ -7,7 +7,7 @@ func profileByName(name string) Profile {
 	p.Name = name
 	switch name {
 	case "general":
-		p.Types = []int{0, 1, 2, 3, 4, 7, 9, 17, tBundle, tMapV, tFuncV, tArrV}
+		p.Types = []int{0, 1, 2, 3, 4, 7, 9, 17, tBundle, tMapV, tFuncV, tArrV, tEmbV}
 	case "gapped":
 		p.PGap, p.POptional, p.PDecorate, p.PInvalid = 0.22, 0.4, 0.1, 0.02
 		p.MinFns, p.MaxFns = 3, 10
@@ -75,7 +75,7 @@ func profileByName(name string) Profile {
 	case "enc":
 		p.PSoft, p.PNested, p.PVariadic, p.PViaOpt, p.PFault, p.PInfo = 0, 0.5, 0.2, 0.3, 0.1, 0.3
 		p.PAs = 0.1
-		p.Types = []int{0, 1, 4, 7}
+		p.Types = []int{0, 1, 4, 7, tEmbV}
 		// names and groups that an option and a tag must treat alike, whatever they contain
 		p.Names = []string{"", "", "n1", "a`b", "q\"x"}
 		p.Groups = []string{"g1", "g2", "g`3"}
@@ -83,6 +83,38 @@ func profileByName(name string) Profile {
 		p.PSoft, p.PFault, p.MaxScopes, p.PLateScope, p.PMidInvoke, p.PInvalid = 0, 0, 5, 0.5, 0.4, 0
 		p.PDefer = 0.3
 		p.PBackEdge = 0.04
+	case "large", "largefaults", "largerejects", "largeinfo", "largeviz", "largegraph", "largegraphfaults":
+		// sizes the other profiles never reach (batch l): 20-45 constructors, scope chains up to 12 deep, 8-16
+		// results / parameters / flatten elements in a quarter of the functions, 8-20 Invokes, many names
+		p.Big = true
+		p.MinFns, p.MaxFns, p.MaxScopes, p.Invokes = 20, 45, 12, [2]int{8, 20}
+		p.Names = []string{"", ""}
+		for i := 0; i < 24; i++ {
+			p.Names = append(p.Names, fmt.Sprintf("n%d", i))
+		}
+		p.PGroupRes, p.PGroupPar, p.PSoft, p.PFlatten, p.PExport, p.PDup = 0.3, 0.25, 0.25, 0.4, 0.25, 0.1
+		p.PDecorate, p.PMidInvoke, p.PLateScope, p.PNested = 0.15, 0.4, 0.5, 0.4
+		switch name {
+		case "largefaults":
+			p.PFault, p.InvokeFaults, p.PCallback, p.PDigErr = 0.15, true, 0.8, 0.15
+		case "largerejects":
+			p.PBackEdge, p.PInvalid, p.PDup, p.PDefer = 0.12, 0.1, 0.2, 0.3
+		case "largeinfo":
+			p.PInfo, p.PAs, p.PVariadic = 0.9, 0.2, 0.3
+		case "largeviz":
+			p.PVisualize, p.PFault, p.InvokeFaults = 0.4, 0.15, true
+		case "largegraph", "largegraphfaults":
+			// long-lived containers: 60-90 constructors and 30-70 Invokes, many of them with group parameters
+			// (each leaves a node in the scope's graph), so that a scope's graph passes 64 and 128 nodes while
+			// registrations, rejections and Invokes keep coming
+			p.MinFns, p.MaxFns, p.MaxScopes, p.Invokes = 60, 90, 5, [2]int{30, 70}
+			p.PGroupPar, p.PGroupRes, p.PMidInvoke, p.PGap, p.PBackEdge, p.PDefer = 0.4, 0.3, 0.6, 0.05, 0.06, 0.3
+			// few group keys and few scopes: ten and more feeders of one group in one scope
+			p.Groups, p.GroupTypes, p.MaxScopes = []string{"g1", "g1", "g2"}, []int{0}, 3
+			if name == "largegraphfaults" {
+				p.PFault, p.InvokeFaults, p.PCallback = 0.12, true, 0.5
+			}
+		}
 	case "orderdeco":
 		p.PSoft, p.PFault, p.MaxScopes, p.PLateScope, p.PMidInvoke, p.PInvalid = 0, 0, 4, 0.5, 0.3, 0
 		p.PDefer, p.PBackEdge = 0.3, 0.02
@@ -94,6 +126,7 @@ func profileByName(name string) Profile {
 	case "info":
 		p.PInfo, p.PNested, p.PAs, p.PVariadic, p.PInvalid, p.PDup = 0.9, 0.6, 0.2, 0.3, 0.15, 0.1
 		p.PLocPC = 0.15
+		p.Types = []int{0, 1, 2, 3, tEmbV, tEmbV}
 	case "callbacks":
 		p.PCallback, p.PFault, p.InvokeFaults, p.PDecorate = 0.7, 0.3, true, 0.4
 		p.PDigErr = 0.2
@@ -243,7 +276,44 @@ func tinyKeysJobs(prop, tier string) []JobSpec {
 }
 
 func allJobsFor(prop, tier string) []JobSpec {
-	return append(append(append(jobsFor(prop, tier), tinyJobs(prop, tier)...), tinyScopeJobs(prop, tier)...), tinyKeysJobs(prop, tier)...)
+	return append(append(append(append(jobsFor(prop, tier), tinyJobs(prop, tier)...), tinyScopeJobs(prop, tier)...), tinyKeysJobs(prop, tier)...), largeJobs(prop, tier)...)
+}
+
+// largeJobs: histories of sizes the other profiles never reach (profiles large*, genBigShape), for size-dependent
+// defects: thresholds of small buffers, word sizes, sort algorithms, slice growth (seeded batch l).
+func largeJobs(prop, tier string) []JobSpec {
+	n, nb := 1200, 32
+	if tier != "quick" {
+		n, nb = 50000, 800
+	}
+	ng := n / 6
+	switch prop {
+	case "C01", "C08", "C09", "C10", "C11", "C12":
+		return []JobSpec{{"hist:large", n}}
+	case "C02", "C03", "C04":
+		return []JobSpec{{"hist:large", n}, {"hist:largegraph", ng}}
+	case "C05":
+		return []JobSpec{{"hist:largerejects", n}, {"hist:largegraph", ng}}
+	case "C06":
+		return []JobSpec{{"hist:largerejects", n}, {"hist:largegraph", ng}, {"diff:c06graph", 2 * ng}}
+	case "C14":
+		return []JobSpec{{"hist:largerejects", n}}
+	case "C07":
+		return []JobSpec{{"hist:largefaults", n}, {"hist:bigshape", nb}, {"hist:largegraphfaults", ng}}
+	case "C13", "C20":
+		return []JobSpec{{"hist:largefaults", n}, {"hist:bigshape", nb}}
+	case "C15":
+		return []JobSpec{{"diff:c15big", n}}
+	case "C16":
+		return []JobSpec{{"diff:c16big", n}, {"diff:c16graph", ng}}
+	case "C17":
+		return []JobSpec{{"diff:c17big", n}, {"diff:c17graph", 3 * ng}}
+	case "C18":
+		return []JobSpec{{"hist:largeinfo", n}}
+	case "C19":
+		return []JobSpec{{"hist:largeviz", n}, {"hist:bigshape", nb}}
+	}
+	return nil
 }
 
 func levelFor(prop string) string {
